@@ -379,8 +379,9 @@ def coq_eval(name, body, timeout=900):
     path = os.path.join(GEN, name + ".v")
     with open(path, "w") as f:
         f.write(body)
-    rc, out = run(["timeout", str(timeout), "coqc", "-R", ".", "PanVerif", "-w", "-all", os.path.join("gen", name + ".v")],
-                  cwd=COQ, timeout=timeout + 30)
+    # (a large C stack: vm_compute recurses as deep as the evaluated program does)
+    rc, out = run(["bash", "-c", "ulimit -s unlimited 2>/dev/null || ulimit -s 1000000 2>/dev/null; exec timeout %d coqc -R . PanVerif -w -all %s"
+                   % (timeout, os.path.join("gen", name + ".v"))], cwd=COQ, timeout=timeout + 30)
     # the correspondence shards are pure data + one Eval: not kept once they have been evaluated (kept when coqc failed)
     exts = (".vo", ".vok", ".vos", ".glob") + ((".v",) if rc == 0 and name.startswith("cases_") else ())
     for ext in exts:
